@@ -418,14 +418,14 @@ def plan(tier):
                 "full3": dict(max_nodes=3, max_depth=3, scalars=gen.SCALARS_FULL)}
         spec = [("small5", "one-core", {}, 40), ("small4", "one", {}, 12), ("full3", "one", {}, 12),
                 ("small3", "two-all", {}, 1), ("small4", "coll-all", {}, 12), ("full3", "coll-all", {}, 12),
-                ("small4", "sample", {"len": 2, "k": 300}, 8), ("small4", "sample", {"len": 3, "k": 100}, 16)]
-        nrandom = 30000
+                ("small4", "sample", {"len": 2, "k": 150}, 8), ("small4", "sample", {"len": 3, "k": 50}, 16)]
+        nrandom = 10000
         bounds = {"docs": "all trees N<=5 depth<=3 scalars {null,true,1,a}; all trees N<=3 over the 9-value pool; "
-                          "11 anchor/alias/merge documents; 30000 seeded random trees N<=14",
+                          "11 anchor/alias/merge documents; 10000 seeded random trees N<=14",
                   "paths": "every 1-segment path of the extended vocabulary on all N<=4 documents and of the core vocabulary "
                            "(search attributes {.,a}, terms {a,1}, one regex) on all N<=5 documents; every 2-segment path over "
-                           "the core vocabulary on all N<=3 documents; every collector path on all N<=4 documents; 300 seeded "
-                           "2-segment and 100 seeded 3-segment paths per N<=4 document; anchor paths; one random 2-5 segment "
+                           "the core vocabulary on all N<=3 documents; every collector path on all N<=4 documents; 150 seeded "
+                           "2-segment and 50 seeded 3-segment paths per N<=4 document; anchor paths; one random 2-5 segment "
                            "path per random tree"}
     elif tier == "mini":
         # smoke / mutation-testing tier (not a reporting tier)
@@ -451,9 +451,9 @@ def run(tier="quick", seed=0, jobs=None):
     VOCAB = extended_vocabulary()
     COLLS = collector_paths()
     sets, spec, nrandom, bounds = plan(tier)
-    OPT_STRIDE[0] = 3 if tier == "quick" else 1
+    OPT_STRIDE[0] = 3 if tier == "quick" else 2
     bounds["optional_mode"] = "get_nodes(mustexist=False) on a copy of the document for every %s path text" % (
-        "3rd" if OPT_STRIDE[0] == 3 else "")
+        "3rd" if OPT_STRIDE[0] == 3 else "2nd")
     for name, kw in sets.items():
         DOCSETS[name] = gen.trees(**kw)
     units = []
